@@ -1976,7 +1976,7 @@ rfbClientProcessExtServerCutText(rfbClient* client, char *data, int len)
     return FALSE;
   }
   size = rfbClientSwap32IfLE(size);
-  if (size > (1 << 20)) {
+  if (size > (1 << 20) + 1) { /* a text of up to 1 MB plus its terminating NUL */
     rfbClientLog("rfbClientProcessExtServerCutText. size too large\n");
     inflateEnd(&stream);
     return FALSE;
